@@ -947,7 +947,13 @@ class Interp:
         sp = fr.spec
         if sp is None or fr.qual != sp.qual and not fr.qual.startswith(sp.qual + ".<locals>."):
             return k, None
-        return k, sp.loops.get((fr.qual, k)) or (sp.loops.get(k) if fr.qual == sp.qual else None)
+        byiter = None
+        if hasattr(st, "iter"):
+            try:
+                byiter = sp.loops.get(("iter", ast.unparse(st.iter)))
+            except Exception:  # noqa
+                byiter = None
+        return k, byiter or sp.loops.get((fr.qual, k)) or (sp.loops.get(k) if fr.qual == sp.qual else None)
 
     def st_For(self, cx, fr, st):
         it = self.eval(cx, fr, st.iter)
@@ -1011,6 +1017,8 @@ class Interp:
             ft = lsp.heap_types[field]
             cx.heap[field] = z3.Const(fresh_name(f"H_{field}"), z3.ArraySort(z3.DeclareSort("Ref"), ft.sort()))
         itst.havoc(cx)
+        if getattr(lsp, "on_havoc", None) is not None:
+            lsp.on_havoc(cx)
         for nm, g in lsp.invariant(cx, fr.env, itst):
             cx.assume(g)
         mode = cx.choose(2)
